@@ -478,14 +478,14 @@ func (a *alphabet) values(f sshwire.Field, label string) []sshwire.Value {
 	return out
 }
 
-func smallOnly(in []sshwire.Value) []sshwire.Value {
-	var out []sshwire.Value
-	for _, v := range in {
-		if len(v.B) <= 24 && (v.Int == nil || v.Int.BitLen() <= 136) {
-			out = append(out, v)
-		}
+func smallOnly(f sshwire.Field, in []sshwire.Value) []sshwire.Value {
+	switch f.Kind {
+	case sshwire.String, sshwire.Rest:
+		return in[:8] // the fixed short strings
+	case sshwire.Mpint:
+		return in[:200] // 0 and +-(2^k-1), +-2^k, +-(2^k+1) for small k
 	}
-	return out
+	return in
 }
 
 // bases: a minimal assignment (everything empty/zero) and a non-trivial one.
@@ -736,8 +736,8 @@ func run(c *vf.Ctx) {
 			for fi, f := range mi.layout {
 				alts := k.a.values(f, mi.name)
 				if d < 2 {
-					// these two also seed the fault enumeration: keep them short
-					alts = smallOnly(alts)
+					// these two also seed the fault enumeration: keep them short (and seed-independent in shape)
+					alts = smallOnly(f, alts)
 				}
 				vals[fi] = alts[(d*7+fi*3+1)%len(alts)]
 			}
@@ -943,10 +943,10 @@ func (k *checker) fieldless(mi *msgInfo) {
 	c := k.c
 	p := reflect.New(mi.typ)
 	if pan, v, _ := vf.Protect(func() { ssh.Marshal(p.Interface()) }); pan {
-		c.Violation("Marshal panics on field-less message struct "+mi.name, fmt.Sprint(v))
+		c.Violation("Marshal/Unmarshal panic on field-less message struct "+mi.name, "Marshal: "+fmt.Sprint(v))
 	}
 	if pan, v, _ := vf.Protect(func() { _ = ssh.Unmarshal([]byte{52}, p.Interface()) }); pan {
-		c.Violation("Unmarshal panics on field-less message struct "+mi.name, fmt.Sprint(v))
+		c.Violation("Marshal/Unmarshal panic on field-less message struct "+mi.name, "Unmarshal: "+fmt.Sprint(v))
 	}
 	c.Eval(2)
 }
@@ -982,13 +982,22 @@ func (k *checker) mpintPrimitives() {
 			c.Violation("marshalInt output is not the minimal two's complement mpint", map[string]any{"n": clipS(n.Text(16)), "got": fmt.Sprintf("%x", clip(buf[:w])), "want": fmt.Sprintf("%x", clip(want))})
 		}
 		var bb bytes.Buffer
-		ssh.VerifC24WriteInt(&bb, n)
+		if pan, pv, _ := vf.Protect(func() { ssh.VerifC24WriteInt(&bb, n) }); pan {
+			c.Violation("writeInt panics", map[string]any{"n": clipS(n.Text(16)), "panic": fmt.Sprint(pv)})
+			continue
+		}
 		if !bytes.Equal(bb.Bytes(), want) {
 			c.Violation("writeInt output is not the minimal two's complement mpint", map[string]any{"n": clipS(n.Text(16))})
 		}
 		// parse back, with a tail that must be returned untouched
 		in := append(append([]byte(nil), want...), 0xde, 0xad)
-		got, rest, ok := ssh.VerifC24ParseInt(in)
+		var got *big.Int
+		var rest []byte
+		var ok bool
+		if pan, pv, _ := vf.Protect(func() { got, rest, ok = ssh.VerifC24ParseInt(in) }); pan {
+			c.Violation("parseInt panics", map[string]any{"n": clipS(n.Text(16)), "panic": fmt.Sprint(pv)})
+			continue
+		}
 		if !ok || got.Cmp(n) != 0 || !bytes.Equal(rest, []byte{0xde, 0xad}) {
 			c.Violation("parseInt(marshalInt(n)) != n", map[string]any{"n": clipS(n.Text(16)), "ok": ok})
 		}
@@ -1013,23 +1022,35 @@ func (k *checker) mpintPrimitives() {
 	}
 	for _, b := range bodies {
 		in := sshwire.EncodeString(b)
-		got, rest, ok := ssh.VerifC24ParseInt(in)
+		var got *big.Int
+		var rest []byte
+		var ok bool
+		if pan, pv, _ := vf.Protect(func() { got, rest, ok = ssh.VerifC24ParseInt(in) }); pan {
+			c.Violation("parseInt panics", map[string]any{"body": fmt.Sprintf("%x", b), "panic": fmt.Sprint(pv)})
+			continue
+		}
 		c.Eval(1)
 		if !ok || len(rest) != 0 || got.Cmp(sshwire.MpintValue(b)) != 0 {
 			c.Violation("parseInt value differs from two's complement reading", map[string]any{"body": fmt.Sprintf("%x", b), "ok": ok})
 		}
 	}
 	// parseString / parseNameList / parseInt on short and inconsistent inputs
-	for _, in := range [][]byte{{}, {0}, {0, 0, 0}, {0, 0, 0, 1}, {0, 0, 0, 2, 'a'}, {0xff, 0xff, 0xff, 0xff}, {0x80, 0, 0, 0, 'a'}, {0xff, 0xff, 0xff, 0xff, 'a', 'b'}} {
+	for _, in := range [][]byte{{}, {0}, {0, 0, 0}, {0, 0, 0, 1}, {0, 0, 0, 2, 'a'}, {0xff, 0xff, 0xff, 0xff}, {0x80, 0, 0, 0, 'a'}, {0xff, 0xff, 0xff, 0xff, 'a', 'b'},
+		{0x7f, 0xff, 0xff, 0xff, 'a'}, {0x80, 0, 0, 1, 'a', 'b'}, {0, 0, 1, 0, 'a'}} {
 		c.Eval(3)
-		if _, _, ok := ssh.VerifC24ParseString(in); ok {
-			c.Violation("parseString accepts short input", fmt.Sprintf("%x", in))
-		}
-		if _, _, ok := ssh.VerifC24ParseInt(in); ok {
-			c.Violation("parseInt accepts short input", fmt.Sprintf("%x", in))
-		}
-		if _, _, ok := ssh.VerifC24ParseNameList(in); ok {
-			c.Violation("parseNameList accepts short input", fmt.Sprintf("%x", in))
+		pan, pv, _ := vf.Protect(func() {
+			if _, _, ok := ssh.VerifC24ParseString(in); ok {
+				c.Violation("parseString accepts short input", fmt.Sprintf("%x", in))
+			}
+			if _, _, ok := ssh.VerifC24ParseInt(in); ok {
+				c.Violation("parseInt accepts short input", fmt.Sprintf("%x", in))
+			}
+			if _, _, ok := ssh.VerifC24ParseNameList(in); ok {
+				c.Violation("parseNameList accepts short input", fmt.Sprintf("%x", in))
+			}
+		})
+		if pan {
+			c.Violation("parseString/parseInt/parseNameList panic on short input", map[string]any{"input": fmt.Sprintf("%x", in), "panic": fmt.Sprint(pv)})
 		}
 	}
 	// name-list bodies: every string of length <= 3 over {a , -} and the empty body
@@ -1047,7 +1068,13 @@ func (k *checker) mpintPrimitives() {
 	}
 	for _, b := range nb {
 		in := append(sshwire.EncodeString(b), 'T')
-		got, rest, ok := ssh.VerifC24ParseNameList(in)
+		var got []string
+		var rest []byte
+		var ok bool
+		if pan, pv, _ := vf.Protect(func() { got, rest, ok = ssh.VerifC24ParseNameList(in) }); pan {
+			c.Violation("parseNameList panics", map[string]any{"body": string(b), "panic": fmt.Sprint(pv)})
+			continue
+		}
 		want := sshwire.SplitNames(b)
 		c.Eval(1)
 		if !ok || !bytes.Equal(rest, []byte{'T'}) || !sshwire.Equal(sshwire.Field{Kind: sshwire.NameList}, sshwire.Value{Names: got}, sshwire.Value{Names: want}) {
@@ -1192,6 +1219,13 @@ func (k *checker) decodeCheck(msgs []*msgInfo, samples []encSample) {
 			return
 		}
 		want, werr := mi.refDecode(data)
+		if len(mi.layout) == 0 {
+			// a message without fields is exactly its type byte
+			want, werr = nil, nil
+			if len(data) != 1 {
+				werr = sshwire.ErrTrailing
+			}
+		}
 		if (err == nil) != (werr == nil) {
 			cls := "decode accepts what RFC decoding rejects"
 			if err != nil {
